@@ -1,5 +1,6 @@
 import IGVerif.Proofs.OdoD
 import IGVerif.Model.Tab
+import IGVerif.Proofs.TabRows
 import IGVerif.Gen.Facts
 /-! C04 — the tabular export lists every atomic statement exactly once.
 
@@ -79,5 +80,18 @@ example : generate [[1, 2], [], [3], [4, 5, 6]] =
     order with the context components moved before the constitutive ones -/
 theorem leaf_order_is_permutation : Tab.leafOrder.length = 27 ∧ (List.range 27).all (Tab.leafOrder.contains ·) = true := by
   decide
+
+/-- **The table has one row per choice**: the atomic statements of a statement (its own rows in
+    `Tab.stmtRows`, in every mode and for every option) are exactly as many as there are ways
+    of choosing one alternative from each of its component columns -/
+theorem table_rows_card (o : Tab.Opts) (fs : PStmt) (stmtId : Str) (stmtAnn : Option Str) (stmtLinks : Str)
+    (hne : Tab.columnsOf fs ≠ []) :
+    (Tab.ownRows o fs stmtId stmtAnn stmtLinks).1.length = count ((Tab.columnsOf fs).map (·.alts)) :=
+  Tab.ownRows_card o fs stmtId stmtAnn stmtLinks hne
+
+/-- the rows are produced from the odometer's permutations, one each, in the odometer's order -/
+theorem table_rows_follow_odometer (o : Tab.Opts) (fs : PStmt) (stmtId : Str) (stmtAnn : Option Str) (stmtLinks : Str) :
+    (Tab.ownRows o fs stmtId stmtAnn stmtLinks).1.length = (Tab.permsOf (Tab.columnsOf fs)).length :=
+  Tab.ownRows_length o fs stmtId stmtAnn stmtLinks
 
 end IGVerif.C04
